@@ -28,7 +28,8 @@ CONSTANTS Families,  \* the skeleton sub-grammars explored (one initial state ea
           MaxIns,    \* bound on the number of independent insertions per variant
           MaxDep,    \* bound on the number of dependent insertions (fillers that need a name given by another filler)
           WStride,   \* sampling of the contextual-keyword list of the cmp family (1 = all)
-          RichMode   \* 0: core fillers only; 1: a rich filler only as the single insertion; 2: at most one rich filler among the insertions
+          RichMode,  \* 0: core fillers only; 1: a rich filler only as the single insertion; 2: at most one rich filler among the insertions
+          NestIns    \* family "nest": 2 = a context insertion (outside the payload) may be combined with one payload insertion
 
 VARIABLES fam,       \* the skeleton sub-grammar of this behaviour
           phase,     \* "derive" | "insert"
@@ -81,6 +82,7 @@ FillersOfKind(k) ==
                        \cup {F(<<"ret-glue-arrow">>, {"amb"}, <<":", "A", "<", "B", ">", "<GLUE>">>),      \* ":A<B>=>" : ">=" then ">"
                              F(<<"ret-glue-arrow-2">>, {"amb"}, <<":", "A", "<", "B", "<", "C", ">", ">", "<GLUE>">>)}
     [] k = "@retpa" -> Wrapped("ret", <<":">>, CoreTypes \cup PredTypes, <<>>, {"amb"})
+    [] k = "@retq"  -> Wrapped("ret", <<":">>, NoUnique \cup NestTypes, <<>>, {"amb"})        \* return type of an arrow that is the true branch of a conditional
     [] k = "@retasync" -> {F(<<"ret-promise">>, {}, <<":", "Promise", "<", "T", ">">>),
                            F(<<"ret-promise2">>, {"amb", "rich"}, <<":", "Promise", "<", "A", "<", "B", ">", ">">>)}
     [] k = "@retasynca" -> {F(<<"ret-promise">>, {"amb"}, <<":", "Promise", "<", "T", ">">>),
@@ -97,6 +99,7 @@ FillersOfKind(k) ==
     [] k = "@cast"  -> CastLists
     [] k = "@post"  -> AsFillers(NoUnique) \cup PostCommon
     [] k = "@postb" -> PostBeforeOp
+    [] k = "@postn" -> AsFillers(CoreTypes \cup LabelTypes) \cup {F(<<"nonnull">>, {"amb"}, <<"!">>)}   \* payloads of the family "nest": independent of the sampling
     [] k = "@nn"    -> {F(<<"nonnull">>, {"amb"}, <<"!">>), F(<<"nonnull2">>, {"amb", "rich"}, <<"!", "!">>)}
     [] k = "@stmt"  -> StmtFillers
     [] k = "@ovl"   -> OverloadFillers
@@ -132,10 +135,10 @@ FillersOfKind(k) ==
                         FD(<<"bundle-reexport-iface">>, {"rich", "amb"}, <<"export", "type", "{", "IFace", "}", "from", "'./lib'", ";">>, "IFace", "")}
 
 SlotKinds == {"@annv", "@annl", "@annp", "@annpn", "@annpd", "@annpr", "@annf", "@annfi", "@annfp", "@annc",
-              "@ret", "@retp", "@retm", "@reta", "@retpa", "@retasync", "@retasynca", "@retgen", "@retagen",
-              "@tp", "@tpa", "@tpc", "@ta", "@tai", "@cast", "@post", "@postb", "@nn", "@stmt", "@ovl", "@mem", "@mema",
+              "@ret", "@retp", "@retm", "@reta", "@retpa", "@retq", "@retasync", "@retasynca", "@retgen", "@retagen",
+              "@tp", "@tpa", "@tpc", "@ta", "@tai", "@cast", "@post", "@postb", "@postn", "@nn", "@stmt", "@ovl", "@mem", "@mema",
               "@movl", "@mod", "@modf", "@mods", "@modo", "@abs", "@impl", "@thisp", "@thisp0", "@impi", "@impi2", "@cimp", "@cstmt", "@cuse"}
-AmbKinds == {"@reta", "@retpa", "@retasynca", "@tpa", "@ta", "@tai", "@cast", "@nn", "@thisp", "@thisp0", "@ovl"}
+AmbKinds == {"@reta", "@retpa", "@retq", "@retasynca", "@tpa", "@ta", "@tai", "@cast", "@nn", "@thisp", "@thisp0", "@ovl"}
 IsSlot(t) == t \in SlotKinds
 FillerTable == [k \in SlotKinds |-> FillersOfKind(k)]
 
@@ -416,6 +419,65 @@ Jsx(nt) ==
                        P("j-fn", {"jsx"}, <<"function", "f", "@tp", "(", "a", "@annp", ")", "@ret", "{", "return", "<", "a", "/>", ";", "}">>),
                        P("j-class", {"jsx", "amb"}, <<"class", "C", "@tpc", "extends", "B", "@ta", "{", "m", "(", ")", "@ret", "{", "return", "<", "a", "/>", ";", "}", "}">>)}
 
+
+(* ------------------------------------------------------- nested speculation *)
+(* Family "nest": CONTEXT x PAYLOAD.  A context is a skeleton whose parsing is speculative in a
+   TypeScript file (the parser has to look ahead / parse tentatively and possibly back off); the
+   payload (non-terminal PL) is an expression that sits INSIDE the span of that speculation and
+   itself starts a speculation (or does so once a filler is inserted at one of its slots).
+   Speculation kinds (TypeScript's parser.ts names in brackets), each with an outcome
+   "+" (the tentative reading is taken) or "-" (the parser has to back off to the plain reading):
+     QC  arrow return type between "?" and ":"      [parseParenthesizedArrowFunctionExpression with allowReturnTypeInArrowFunction = false]
+     RT  arrow return type "(a): T =>"              [parsePossibleParenthesizedArrowFunctionExpression]
+     TA  type arguments in an expression            [parseTypeArgumentsInExpression + canFollowTypeArgumentsInExpression]
+     TP  "<" at the start of an expression: type parameters of a generic arrow, or a cast
+     AA  arrow parameters vs parenthesised expression / async call (the JavaScript cover grammar)
+     FA  "(" in a type: parameters of a function type vs parenthesised type   [isStartOfFunctionTypeOrConstructorType]
+     IC  "infer U extends C" vs the check type of a conditional type           [tryParseConstraintOfInferType]
+     JSX an expression container inside a JSX attribute (tsx)
+   Production flags "o:K" (contexts) and "i:K" (payloads) are labels that hold for the skeleton
+   itself; slot kinds add a label when they are filled (SlotLabel); type forms carry "s:K" labels. *)
+Nest(nt) ==
+  CASE nt = "Prog" -> {P("c-qc-alt", {"amb", "o:QC-"}, <<"x", "=", "a", "?", "TB", ":", "c", "=>", "PL", ";">>),
+                       P("c-qc-alt-curried", {"amb", "o:QC-"}, <<"x", "=", "a", "?", "(", "b", ")", ":", "c", "=>", "d", "=>", "PL", ";">>),
+                       P("c-qc-alt-default", {"amb", "o:QC-", "o:AA+"}, <<"x", "=", "a", "?", "(", "b", ")", ":", "(", "c", "=", "PL", ")", "=>", "c", ";">>),
+                       P("c-qc-alt-async", {"amb", "o:QC-"}, <<"x", "=", "a", "?", "(", "b", ")", ":", "async", "c", "=>", "PL", ";">>),
+                       P("c-qc-then", {"amb", "o:QC+"}, <<"x", "=", "a", "?", "(", "b", ")", "@retq", "=>", "PL", ":", "e", ";">>),
+                       P("c-rt-case", {"amb", "o:RT-"}, <<"switch", "(", "k", ")", "{", "case", "(", "b", ")", ":", "PL", ";", "}">>),
+                       P("c-ta-cmp", {"amb", "o:TA-"}, <<"x", "=", "g", "<", "(", "PL", ")", ">", "h", ";">>),
+                       P("c-aa-default-arrow", {"amb", "o:AA+"}, <<"x", "=", "(", "b", "=", "PL", ")", "=>", "b", ";">>),
+                       P("c-aa-assign-paren", {"amb", "o:AA-"}, <<"x", "=", "(", "b", "=", "PL", ")", ";">>),
+                       P("c-aa-seq-paren", {"amb", "o:AA-"}, <<"x", "=", "(", "b", ",", "PL", ")", ";">>),
+                       P("c-aa-async-arrow", {"amb", "o:AA+"}, <<"x", "=", "async", "(", "b", "=", "PL", ")", "=>", "b", ";">>),
+                       P("c-aa-async-call", {"amb", "o:AA-"}, <<"x", "=", "async", "(", "b", "=", "PL", ")", ";">>),
+                       P("c-tp-generic-default", {"amb", "o:TP+"}, <<"x", "=", "@tpa", "(", "b", "=", "PL", ")", "=>", "b", ";">>),
+                       P("c-jsx-attr", {"amb", "jsx", "o:JSX"}, <<"x", "=", "<", "C", "f", "=", "{", "PL", "}", "/>", ";">>),
+                       (* plain JavaScript that the unchanged tree rejects under the ts loader (known findings) *)
+                       P("c-qc-alt-assign-paren", {"amb"}, <<"x", "=", "a", "?", "b", "=", "(", "c", ")", ":", "d", "=>", "e", "@post", ";">>),
+                       P("c-qc-alt-arrow-paren", {"amb"}, <<"x", "=", "a", "?", "y", "=>", "(", "c", ")", ":", "d", "=>", "e", "@post", ";">>),
+                       (* TypeScript itself reads "(b): c =>" as the head of an arrow function with a return type here *)
+                       P("c-rt-case-arrow", {"amb", "tsdiff"}, <<"switch", "(", "k", ")", "{", "case", "(", "b", ")", ":", "c", "=>", "d", ";", "}">>)}
+    [] nt = "TB" -> {P("tb-paren", {}, <<"(", "b", ")">>), P("tb-paren-assign", {}, <<"(", "b", "=", "d", ")">>),
+                     P("tb-paren-seq", {}, <<"(", "b", ",", "d", ")">>), P("tb-paren-post", {}, <<"(", "b", "@post", ")">>)}
+    [] nt = "PL" -> {P("p-call", {}, <<"f", "@ta", "(", "y", "@postn", ")">>),
+                     P("p-new", {}, <<"new", "C", "@ta", "(", "y", ")">>),
+                     P("p-tagged", {}, <<"f", "@ta", "`t${", "y", "}u`">>),
+                     P("p-cmp", {"i:TA-"}, <<"y", "<", "z", ">", "w", "@nn">>),
+                     P("p-arrow", {"i:AA+"}, <<"@tpa", "(", "y", ")", "@reta", "=>", "y">>),
+                     P("p-arrow-default", {"i:AA+"}, <<"(", "y", "=", "z", ")", "@reta", "=>", "y">>),
+                     P("p-cast", {}, <<"@cast", "y">>),
+                     P("p-cond-alt", {"i:QC-"}, <<"y", "?", "(", "z", ")", ":", "w", "=>", "w", "@nn">>),
+                     P("p-cond-alt-paren", {"i:QC-"}, <<"(", "y", "?", "(", "z", ")", ":", "w", "=>", "w", "@nn", ")">>),
+                     P("p-cond-then", {"i:AA+"}, <<"y", "?", "(", "z", ")", "@retq", "=>", "w", ":", "v">>),
+                     P("p-case", {"i:RT-"}, <<"(", ")", "=>", "{", "switch", "(", "y", ")", "{", "case", "(", "z", ")", ":", "w", "@nn", ";", "}", "}">>),
+                     P("p-paren-assign", {"i:AA-"}, <<"(", "y", "=", "z", "@nn", ")">>),
+                     P("p-async-call", {"i:AA-"}, <<"async", "(", "y", "@nn", ")">>),
+                     P("p-async-arrow", {"i:AA+"}, <<"async", "@tpa", "(", "y", ")", "@retasynca", "=>", "y">>),
+                     P("p-as", {}, <<"y", "@postn">>)}
+(* combinations that TypeScript itself reads differently from JavaScript: the nested conditional's
+   "(z) : w => w" is followed by ":" and therefore an arrow function with a return type *)
+TsDiffCombos == {{"c-qc-then", "p-cond-alt"}}
+
 (* a small file tree: type-only imports/exports across files (bundle mode) *)
 Bundle(nt) ==
   CASE nt = "Prog" -> {P("b-import-named", {"mod"}, <<"<FILE entry.ts>", "import", "{", "v", "@cimp", "}", "from", "'./lib'", ";", "@cuse", "console", ".", "log", "(", "v", "@post", ")", ";",
@@ -435,13 +497,41 @@ NonTerminalsOf(g) ==
     [] g = "module" -> {"Prog"}
     [] g = "jsx" -> {"Prog"}
     [] g = "bundle" -> {"Prog"}
-AllFamilies == {"decl", "fn", "class", "expr", "cmp", "module", "jsx", "bundle"}
+    [] g = "nest" -> {"Prog", "TB", "PL"}
+AllFamilies == {"decl", "fn", "class", "expr", "cmp", "module", "jsx", "bundle", "nest"}
 ProdsOf(g, nt) ==
   CASE g = "decl" -> Decl(nt) [] g = "fn" -> Fn(nt) [] g = "class" -> Class(nt) [] g = "expr" -> Expr(nt)
-    [] g = "cmp" -> Cmp(nt) [] g = "module" -> Module(nt) [] g = "jsx" -> Jsx(nt) [] g = "bundle" -> Bundle(nt)
+    [] g = "cmp" -> Cmp(nt) [] g = "module" -> Module(nt) [] g = "jsx" -> Jsx(nt) [] g = "bundle" -> Bundle(nt) [] g = "nest" -> Nest(nt)
 ProdTable == [g \in AllFamilies |-> [nt \in NonTerminalsOf(g) |-> ProdsOf(g, nt)]]
 AllProdsOf == [g \in AllFamilies |-> UNION {ProdTable[g][nt] : nt \in NonTerminalsOf(g)}]
 ProdFlags(g, names) == UNION {p.fl : p \in {q \in AllProdsOf[g] : q.name \in names}}
+
+
+(* ---------------------------------------------------- speculation labels *)
+OLabels == {"o:QC-", "o:QC+", "o:RT-", "o:TA-", "o:AA+", "o:AA-", "o:TP+", "o:JSX"}
+ILabels == {"i:TA+", "i:TA-", "i:TP+", "i:TP-", "i:RT+", "i:RT-", "i:QC+", "i:QC-", "i:AA+", "i:AA-"}
+SlotLabel(k) == CASE k \in {"@ta", "@tai"} -> "i:TA+" [] k = "@tpa" -> "i:TP+" [] k = "@cast" -> "i:TP-"
+                  [] k \in {"@reta", "@retpa", "@retasynca"} -> "i:RT+" [] k = "@retq" -> "i:QC+" [] OTHER -> ""
+(* outer labels that hold only once the context's own slot of that kind is filled *)
+Activator(o) == CASE o = "o:QC+" -> "@retq" [] o = "o:TP+" -> "@tpa" [] OTHER -> ""
+PayloadProds(u) == {q \in ProdTable["nest"]["PL"] : q.name \in u}
+(* the positions of the payload inside the frozen form (payload identifiers y z w v do not occur in contexts) *)
+Region(f, u) ==
+  IF PayloadProds(u) = {} THEN {}
+  ELSE LET r == (CHOOSE q \in PayloadProds(u) : TRUE).rhs
+           i == CHOOSE j \in 1..(Len(f) - Len(r) + 1) : SubSeq(f, j, j + Len(r) - 1) = r
+       IN i..(i + Len(r) - 1)
+OuterLabels(f, u, I) ==
+  LET reg == Region(f, u) IN
+  {o \in ProdFlags("nest", u) \cap OLabels : Activator(o) = "" \/ \E i \in I : i.pos \notin reg /\ i.kind = Activator(o)}
+InnerLabels(f, u, I) ==
+  LET reg == Region(f, u)
+      inner == {i \in I : i.pos \in reg}
+  IN (UNION {q.fl : q \in PayloadProds(u)} \cap ILabels)
+     \cup ({SlotLabel(i.kind) : i \in inner} \ {""})
+     \cup UNION {i.fl \cap SLabels : i \in inner}
+(* type-level nesting: a type form with an "s:" label inside a slot whose kind starts a speculation; "n:" labels of nested type forms *)
+TypeLevelPairs(I) == UNION {{<<SlotLabel(i.kind), l>> : l \in i.fl \cap SLabels} : i \in {j \in I : SlotLabel(j.kind) # ""}}
 
 NTOf == [g \in AllFamilies |-> NonTerminalsOf(g)]
 Leftmost(g, f) == IF \E i \in 1..Len(f) : f[i] \in NTOf[g]
@@ -497,16 +587,28 @@ Freeze ==
 RichOK(f) ==
   LET nr == Cardinality({i \in ins : "rich" \in i.fl /\ ~i.dep})
   IN IF f.needs # "" THEN TRUE
-     ELSE IF "rich" \in f.fl THEN nr = 0 /\ (RichMode = 2 \/ (RichMode = 1 /\ ins = {}))
+     ELSE IF "rich" \in f.fl THEN nr = 0 /\ (IF RichMode = 2 THEN TRUE ELSE IF RichMode # 1 THEN FALSE ELSE IF ins = {} THEN TRUE
+                                              \* family "nest": a labelled type form in the payload together with the (core) activator of the context
+                                              ELSE (fam = "nest" /\ f.fl \cap SLabels # {}))
      ELSE (nr = 0 \/ RichMode = 2)
 
+MaxInsOf(g) == IF g = "nest" /\ NestIns > MaxIns THEN NestIns ELSE MaxIns
+(* family "nest", second insertion: one insertion activates the context (a slot outside the payload whose filling
+   turns the context into its speculative "+" reading), the other one lies inside the payload *)
+NestPairOK(p) ==
+  IF ins = {} THEN TRUE ELSE IF fam # "nest" THEN TRUE ELSE IF MaxInsOf(fam) = MaxIns THEN TRUE
+  ELSE LET reg == Region(form, used)
+           act(q) == q \notin reg /\ form[q] \in {"@retq", "@tpa"}
+       IN \A i \in ins : IF act(i.pos) THEN p \in reg ELSE (act(p) /\ i.pos \in reg)
+(* a skeleton that TypeScript itself reads differently from JavaScript has no typed counterparts *)
+TsDiff == "tsdiff" \in ProdFlags(fam, used) \/ \E c \in TsDiffCombos : c \subseteq used
 Insert ==
-  /\ phase = "insert" /\ exported
+  /\ phase = "insert" /\ exported /\ ~TsDiff
   /\ \E p \in SlotPositions(form) :
        /\ ~\E i \in ins : i.pos = p
        /\ \E f \in FillerTable[form[p]] :
             /\ RichOK(f)
-            /\ IF f.needs = "" THEN Cardinality({i \in ins : ~i.dep}) < MaxIns
+            /\ IF f.needs = "" THEN Cardinality({i \in ins : ~i.dep}) < MaxInsOf(fam) /\ NestPairOK(p)
                                 ELSE f.needs \in Given /\ Cardinality({i \in ins : i.dep}) < MaxDep
             /\ LET off == Offset(form, ins, p) IN
                /\ typed' = SubSeq(typed, 1, off) \o TagSeq(f.toks, "t") \o SubSeq(typed, off + 1, Len(typed))
@@ -519,7 +621,10 @@ Export ==
   /\ phase = "insert" /\ ~exported
   /\ exported' = TRUE
   /\ PrintT(<<"CASE", ToJson([fam |-> fam, toks |-> [i \in 1..Len(typed) |-> typed[i].t],
-                              prods |-> used, pfl |-> ProdFlags(fam, used),
+                              prods |-> used, pfl |-> ProdFlags(fam, used) \cup (IF TsDiff THEN {"tsdiff"} ELSE {}),
+                              olab |-> IF fam = "nest" THEN OuterLabels(form, used, ins) ELSE {},
+                              ilab |-> IF fam = "nest" THEN InnerLabels(form, used, ins) ELSE {},
+                              tlab |-> TypeLevelPairs(ins), nlab |-> UNION {i.fl \cap NLabels : i \in ins},
                               ins |-> {[k |-> i.kind, f |-> i.name, p |-> i.pos, o |-> Offset(form, ins, i.pos), n |-> i.len] : i \in ins},
                               ifl |-> UNION {i.fl : i \in ins}, amb |-> Amb])>>)
   /\ UNCHANGED <<fam, phase, form, used, ins, typed>>
@@ -534,7 +639,7 @@ TypeOK == /\ fam \in Families /\ phase \in {"derive", "insert"} /\ exported \in 
 EraseOK == phase = "insert" => Erase(typed) = Strip(form)
 (* the typed text is a function of (skeleton, insertion set): insertions commute *)
 RenderOK == phase = "insert" => typed = Render(form, ins, 1)
-Bounded == /\ Cardinality({i \in ins : ~i.dep}) <= MaxIns /\ Cardinality({i \in ins : i.dep}) <= MaxDep
+Bounded == /\ Cardinality({i \in ins : ~i.dep}) <= MaxInsOf(fam) /\ Cardinality({i \in ins : i.dep}) <= MaxDep
            /\ \A i, j \in ins : i.pos = j.pos => i = j
            /\ \A i \in ins : IsSlot(form[i.pos]) /\ form[i.pos] = i.kind
            /\ phase = "derive" => ins = {} /\ typed = <<>>
@@ -556,6 +661,22 @@ ASSUME \A k \in SlotKinds : \A f \in FillerTable[k] : FillerBalanced(f) /\ Len(f
 (* filler names are unique within a slot kind *)
 ASSUME \A k \in SlotKinds : Cardinality({f.name : f \in FillerTable[k]}) = Cardinality(FillerTable[k])
 ASSUME Families \subseteq AllFamilies
+(* nested speculation: the grammar inhabits every ordered pair (outer kind, inner kind).  Every context contains the
+   payload non-terminal, so contexts x payloads is a full product; every outer label is carried by a context, every
+   inner label by a payload production (as a flag of the skeleton, or through a slot kind with that label, or -- the
+   type-level labels -- through a type form that the fillers of a payload slot / of "@retq" contain) *)
+NestCtx == {q \in ProdTable["nest"]["Prog"] : q.fl \cap OLabels # {}}
+CanCarry(q, l) == l \in q.fl \/ \E j \in 1..Len(q.rhs) : IsSlot(q.rhs[j]) /\ (SlotLabel(q.rhs[j]) = l \/ \E f \in FillerTable[q.rhs[j]] : l \in f.fl)
+ASSUME \A q \in NestCtx : \E j \in 1..Len(q.rhs) : q.rhs[j] = "PL"
+ASSUME \A o \in OLabels : \E q \in NestCtx : o \in q.fl /\ (Activator(o) = "" \/ \E j \in 1..Len(q.rhs) : q.rhs[j] = Activator(o))
+ASSUME \A l \in ILabels : \E q \in ProdTable["nest"]["PL"] : CanCarry(q, l)
+ASSUME \A l \in SLabels : \E f \in FillerTable["@retq"] : l \in f.fl
+ASSUME \A l \in NLabels : \E f \in FillerTable["@retq"] : l \in f.fl
+ASSUME \A t \in EveryType : \A l \in t.fl : l \in {"rich", "amb"} \cup SLabels \cup NLabels
+RequiredPairs == {<<o, i>> : o \in OLabels, i \in ILabels \cup SLabels} \ {<<"o:JSX", "i:TP-">>}   \* a cast "<T>y" is not valid in a .tsx file
 ASSUME PrintT(<<"CASE", ToJson([allprods |-> [g \in Families |-> {p.name : p \in AllProdsOf[g]}],
-                                kinds |-> [k \in SlotKinds |-> {f.name : f \in FillerTable[k]}]])>>)
+                                kinds |-> [k \in SlotKinds |-> {f.name : f \in FillerTable[k]}],
+                                reqpairs |-> IF "nest" \in Families THEN RequiredPairs ELSE {},
+                                reqtype |-> IF "nest" \in Families THEN {<<"i:QC+", l>> : l \in SLabels} ELSE {},
+                                reqnested |-> IF "nest" \in Families THEN NLabels ELSE {}])>>)
 =============================================================================
